@@ -432,6 +432,22 @@ pub mod vfield {
     #[no_mangle] #[inline(never)] pub fn vp_v_shuffle_abdc(a: &V4) -> V4 { a.shuffle(Shuffle::ABDC) }
     #[no_mangle] #[inline(never)] pub fn vp_v_blend_ab(a: &V4, b: &V4) -> V4 { a.blend(*b, Lanes::AB) }
     #[no_mangle] #[inline(never)] pub fn vp_v_blend_d(a: &V4, b: &V4) -> V4 { a.blend(*b, Lanes::D) }
+    // point formulas of the AVX2 backend through serial-coordinate inputs/outputs (C03 for the vector backend)
+    use crate::backend::vector::avx2::edwards::{CachedPoint, ExtendedPoint};
+    use crate::edwards::EdwardsPoint;
+    use crate::traits::Identity;
+    #[no_mangle] #[inline(never)] pub fn vp_vec_add(p: &EdwardsPoint, q: &EdwardsPoint) -> EdwardsPoint { (&ExtendedPoint::from(*p) + &CachedPoint::from(ExtendedPoint::from(*q))).into() }
+    #[no_mangle] #[inline(never)] pub fn vp_vec_sub(p: &EdwardsPoint, q: &EdwardsPoint) -> EdwardsPoint { (&ExtendedPoint::from(*p) - &CachedPoint::from(ExtendedPoint::from(*q))).into() }
+    #[no_mangle] #[inline(never)] pub fn vp_vec_double(p: &EdwardsPoint) -> EdwardsPoint { ExtendedPoint::from(*p).double().into() }
+    #[no_mangle] #[inline(never)] pub fn vp_vec_roundtrip(p: &EdwardsPoint) -> EdwardsPoint { ExtendedPoint::from(*p).into() }
+    #[no_mangle] #[inline(never)] pub fn vp_vec_identity() -> EdwardsPoint { ExtendedPoint::identity().into() }
+    // the same operations on the vector types themselves (inputs carry the bounds the operations themselves produce): headroom along chains
+    #[no_mangle] #[inline(never)] pub fn vp_vec_raw_add(p: &ExtendedPoint, q: &CachedPoint) -> ExtendedPoint { p + q }
+    #[no_mangle] #[inline(never)] pub fn vp_vec_raw_sub(p: &ExtendedPoint, q: &CachedPoint) -> ExtendedPoint { p - q }
+    #[no_mangle] #[inline(never)] pub fn vp_vec_raw_double(p: &ExtendedPoint) -> ExtendedPoint { p.double() }
+    #[no_mangle] #[inline(never)] pub fn vp_vec_raw_cache(p: &ExtendedPoint) -> CachedPoint { CachedPoint::from(*p) }
+    #[no_mangle] #[inline(never)] pub fn vp_vec_raw_neg_cached(q: &CachedPoint) -> CachedPoint { -q }
+    #[no_mangle] #[inline(never)] pub fn vp_vec_add_cached_identity(p: &EdwardsPoint) -> EdwardsPoint { (&ExtendedPoint::from(*p) + &CachedPoint::identity()).into() }
 }
 
 // ------------------------------------------------------------------ Scalar-level glue (C02, layer F for scalars)
